@@ -257,6 +257,13 @@ def corr_wall(res, rng, n):
             w = w[::-1]
         sh = rng.randrange(m)
         w = w[sh:] + w[:sh]
+        if k % 6 == 0 and rng.random() < 0.5:
+            # a zero-thickness fin: out from a vertex towards the centre and back through the same vertex (the wall visits that vertex twice)
+            i_ = rng.randrange(len(w))
+            tip = (round((0.7 * w[i_][0] + 0.3 * 1.5) * 64) / 64, round((0.7 * w[i_][1] + 0.3 * cz) * 64) / 64)
+            if tip not in w:
+                w = w[:i_ + 1] + [tip, w[i_]] + w[i_ + 1:]
+                hist["with-fin"] = hist.get("with-fin", 0) + 1
         a2 = 2 * polygons.area(w)
         hist["cw" if a2 > 0 else "ccw"] += 1
         hist["one-sided-in-Z"] += cz != 0.0
